@@ -153,6 +153,14 @@ CHECKS.update({
             "DESIGN.md section 5 C03"),
 })
 
+CHECKS.update({
+    "C12": ("other",
+            "fsym symbolic execution of the emitted Fortran module with a heap model (blocks, pointer association, reference counts are ordinary program data): initialize, K runs, shutdown on symbolic inputs so that every feasible sequence of completed / failed / switched steps is a path; per path no memory error, nothing live after shutdown, no leak message; candidates confirmed by gfortran -fsanitize=address; concrete ASan sweep as labelled side check",
+            "Bounded symbolic checking of memory safety of the emitted text: for each program with user-type variables (temporaries, moves, overwrites, yields of temporaries, guarded blocks, failures, early switches) and all real inputs, on every path of K=3 runs (thorough 4) followed by shutdown: every access goes through an associated pointer to a live block, every DEALLOCATE hits a live block, every block the module allocated is freed, shutdown reports no leaked reference.",
+            "Trusted: z3, fsym's heap model (mine; every reported violation is confirmed by ASan/LSan on the compiled module first). STOP ends the program. LAPACK built-ins outside.",
+            "DESIGN.md section 5 C12"),
+})
+
 NOT_APPLICABLE = {
 }
 
